@@ -276,6 +276,30 @@ def opsKeysAreStrings : SMapOps → R Unit
   | .value _ rest => opsKeysAreStrings rest
 end
 
+mutual
+/-- does the value contain a malformed map call stream anywhere (value without key, key without value)? -/
+def containsMalformed : SVal → Bool
+  | .some v | .newtypeStruct _ v | .newtypeVariant _ _ _ v => containsMalformed v
+  | .seq xs | .tuple xs | .tupleStruct _ xs | .tupleVariant _ _ _ xs => anyMalformed xs
+  | .record _ fs | .structVariant _ _ _ fs => anyMalformedF fs
+  | .map es => anyMalformedE es
+  | .mapRaw ops => !isAlternating ops || anyMalformedO ops
+  | _ => false
+def anyMalformed : SVals → Bool
+  | .nil => false
+  | .cons x r => containsMalformed x || anyMalformed r
+def anyMalformedF : SFields → Bool
+  | .nil => false
+  | .cons _ _ x r => containsMalformed x || anyMalformedF r
+def anyMalformedE : SEntries → Bool
+  | .nil => false
+  | .cons k x r => containsMalformed k || containsMalformed x || anyMalformedE r
+def anyMalformedO : SMapOps → Bool
+  | .nil => false
+  | .key k r => containsMalformed k || anyMalformedO r
+  | .value x r => containsMalformed x || anyMalformedO r
+end
+
 def interp (ext : Ext) : Field → SVal → R LVal
   | .mk _ dt nullable md, x => interpDT ext dt nullable md x
 
